@@ -293,10 +293,20 @@ class SymNum:
             raise TypeError("'float' object cannot be interpreted as an integer")
         return int(_E.realise(self))
 
+    def _floor(self):
+        if self.isint:
+            return self
+        E = _E
+        return SymNum(0, {E.new_atom(z3.ToInt(E.z3num(self)), True): 1}, True)
+
     def __int__(self):
         if self.isint:
             return int(_E.realise(self))
-        raise EngineLimit("int() of a symbolic real")
+        # truncation toward zero of a symbolic real: a machine value is required, so the engine enumerates the integers the path
+        # condition allows (needs a bounded variable; otherwise EngineLimit => inconclusive)
+        if _E.branch(Cond(self, "<")):
+            return -int(_E.realise((-self)._floor()))
+        return int(_E.realise(self._floor()))
 
     def __float__(self):
         raise EngineLimit("float() of a symbolic number")
@@ -305,14 +315,13 @@ class SymNum:
         raise EngineLimit("round() of a symbolic number")
 
     def __ceil__(self):
-        if self.isint:
-            return self
-        raise EngineLimit("ceil of symbolic real")
+        return -((-self)._floor())
 
     def __floor__(self):
-        if self.isint:
-            return self
-        raise EngineLimit("floor of symbolic real")
+        return self._floor()
+
+    def __trunc__(self):
+        return self.__int__()
 
     # ---- text: a marker token that maps back to the term
     def __format__(self, spec):
